@@ -199,8 +199,9 @@ class AWSElastiCacheHashClient(HashClient):
             logger.exception(
                 "Can't retrieve cluster configuration from '%s:%s' "
                 "Seems like it is ElastiCache Serverless or even isn't ElastiCache at all.",
-                client.server,
+                *client.server,
             )
+            raise
         finally:
             client.close()
 
